@@ -181,6 +181,8 @@ def m_int(ctx, args, kw):
         if is_sym(b):
             raise Undecided("true division by symbolic")
         return L.fdiv(a, b)
+    if (len(args) > 1 or kw) and (is_sym(v) or isinstance(v, (int, bool))):
+        raise PyRaise(TypeError, "int() can't convert non-string with explicit base")
     if is_sym(v) and z3.is_int(v):
         return v
     if is_sym(v) and z3.is_bool(v):
@@ -296,6 +298,12 @@ m_bytesio.always = True
 def m_from_bytes(ctx, args, kw):
     b = simplify_native(args[0])
     order = args[1] if len(args) > 1 else kw.get("byteorder", "big")
+    if order not in ("big", "little"):
+        if isinstance(order, str):
+            raise PyRaise(ValueError, "byteorder must be either 'little' or 'big'")
+        raise Undecided("from_bytes byteorder")
+    if len(args) > 2 or set(kw) - {"byteorder", "signed"}:
+        raise Undecided("from_bytes with unmodelled arguments")
     if hasattr(b, "sym_from_bytes"):
         if kw.get("signed"):
             raise Undecided("signed from_bytes")
@@ -569,9 +577,13 @@ m_json_dumps.always = True
 
 @nmodel(unicodedata.normalize)
 def m_normalize(ctx, args, kw):
+    if len(args) != 2 or kw:
+        raise Undecided("normalize call shape")
     form, s = args[0], args[1]
     if not isinstance(form, str):
         raise Undecided("normalize form")
+    if form not in ("NFC", "NFD", "NFKC", "NFKD"):
+        raise PyRaise(ValueError, "invalid normalization form")
     f = z3.Function("normalize_" + form, E.PStr, E.PStr)
     return SStr([OStr(f(E.pstr_term(as_sstr(s))), "normalize_" + form)])
 
@@ -586,6 +598,17 @@ def m_pbkdf2(ctx, args, kw):
         raise Undecided("pbkdf2 with hash " + str(hn))
     if is_sym(rounds):
         raise Undecided("symbolic pbkdf2 round count")
+    if set(a) - set(names):
+        raise Undecided("pbkdf2 with unmodelled arguments")
+    dklen = simplify_native(dklen)
+    if is_sym(dklen):
+        raise Undecided("symbolic pbkdf2 output length")
+    if isinstance(rounds, bool) or not isinstance(rounds, int) or (dklen is not None and (isinstance(dklen, bool) or not isinstance(dklen, int))):
+        raise PyRaise(TypeError, "pbkdf2 arguments")
+    if rounds < 1:
+        raise PyRaise(ValueError, "iteration value must be greater than 0")
+    if dklen is not None and dklen < 1:
+        raise PyRaise(ValueError, "key length must be greater than 0")
     if dklen is None:
         dklen = 64
     return U.pbkdf2_sha512(simplify_native(a["password"]), simplify_native(a["salt"]), rounds, dklen)
@@ -672,6 +695,8 @@ class WeakRef(L.SymVal):
 def m_str_index(ctx, selfv, args, kw):
     from .seqs import ZChar, Table
     c = args[0]
+    if len(args) > 1 or kw:
+        raise Undecided("str.index with start / end")
     if isinstance(c, ZChar) and len(set(selfv)) == len(selfv):
         tab = Table.of(selfv)
         E._table_ground(ctx, tab)
@@ -685,6 +710,8 @@ def m_str_index(ctx, selfv, args, kw):
 def m_str_find(ctx, selfv, args, kw):
     from .seqs import ZChar, Table
     c = args[0]
+    if len(args) > 1 or kw:
+        raise Undecided("str.find with start / end")
     if isinstance(c, ZChar) and len(set(selfv)) == len(selfv):
         from .lowbits import LB
         if isinstance(c.code, LB) and c.code.origin is not None and c.code.origin[0] == selfv:
